@@ -72,6 +72,9 @@ inductive X
   /-- an object with a history of Partial(keys…) / Required(keys…) calls (at the top of a schema, or under Lazy): the
       field schemas are base schemas, where nested objects carry the plain `Partial()` flag of `S.obj`. -/
   | objF (mode : Mode) (ca : SOpt) (ops : List ObjOp) (cks : List SzCk) (shape : Shape)
+  /-- `Map(String()<kcks>, val)<cks>` (types/map.go): a JSON object whose keys go through the key schema and whose values
+      go through `val` — `validateMap` is the Record loop without exhaustiveness; `convertMap` refuses non-string keys. -/
+  | mapOf (kcks : List StrCk) (val : S) (cks : List SzCk)
 
 def X.objSt : Mode → List ObjOp → Shape → ObjSt := fun _ ops shape => Gozod.Jsc.objSt shape.keys ops
 
@@ -103,6 +106,7 @@ def X.consults : X → Bool
   | .base s => s.lazyConsults
   | .lazy o n _ => !(o || n)        -- ZodLazy[any] is a ZodType[any]; ZodLazy[*any] (Optional/Nilable) returns `*any`
   | .objF _ _ _ _ _ => false        -- Parse returns map[string]any
+  | .mapOf _ _ _ => false           -- Parse returns map[any]any
 
 /-- `Parse` verdict. -/
 def acceptsX : X → Json → Bool
@@ -122,12 +126,14 @@ def acceptsX : X → Json → Bool
               | .strip => (fs.filter (fun k => shape.keys.contains k)).size
               | _ => fs.size)
       | _ => false
+  | .mapOf kcks val cks, v => accepts (.record (.str kcks) val cks) v   -- size checks, then every key / value
 
 /-- the value `Parse` returns when it accepts. -/
 def outX : X → Json → Json
   | .base s, v => out s v
   | .lazy _ _ x, v => if v.isNull then v else if x.consults then outX x v else v
   | .objF mode ca _ cks shape, v => out (.obj mode ca false cks shape) v
+  | .mapOf _ _ _, v => v
 
 /-- `convert` on the schema (`top` = depth 1). -/
 def toJSX (top : Bool) : X → JS
@@ -143,6 +149,12 @@ def toJSX (top : Bool) : X → JS
         ++ (if req.isEmpty then [] else [.required req])
         ++ [.additionalProperties (caJS ca mode.isLoose)]
         ++ propsKws (szBag cks)))
+  -- `convertMap` with the fix C07-map-key-schema: a key schema with checks becomes `propertyNames` (the Record document);
+  -- a bare String() key adds nothing
+  | .mapOf kcks val cks =>
+      if kcks.isEmpty then
+        .node (.ofList ([.type .object, .additionalProperties (toJS false false false val)] ++ propsKws (szBag cks)))
+      else toJS top false false (.record (.str kcks) val cks)
 
 def toDocX (x : X) : JS := toJSX true x
 
@@ -158,6 +170,7 @@ def reprX (top : Bool) : X → Bool
   | .lazy o n x => x.consults && reprX false x && (if n then true else !o && !acceptsX x .null)
   | .objF mode ca _ cks shape =>
       !mode.isStrip && !(mode.isStrict && ca.isSome) && szSimple cks && reprCa ca && reprShape shape
+  | .mapOf kcks val cks => reprP false (.str kcks) && szSimple cks && reprP false val
 
 def reprXTop : X → Bool
   | .base s => reprTop true s
@@ -194,13 +207,19 @@ def erasePartSh : Shape → Shape
   | .cons k s r => .cons k (erasePart s) (erasePartSh r)
 end
 
-def eraseX : X → X
-  | .base s => .base (erasePart s)
-  | .lazy o n x => .lazy o n (eraseX x)
-  | .objF m ca _ cks sh => .base (.obj m (erasePartO ca) false cks (erasePartSh sh))
+/-- `eo`: the converter ignores the objects' Partial / Required state (before C07-object-optionality);
+    `em`: `convertMap` drops the key schema (before C07-map-key-schema). -/
+def eraseX (eo em : Bool) : X → X
+  | .base s => .base (if eo then erasePart s else s)
+  | .lazy o n x => .lazy o n (eraseX eo em x)
+  | .objF m ca ops cks sh => if eo then .base (.obj m (erasePartO ca) false cks (erasePartSh sh)) else .objF m ca ops cks sh
+  | .mapOf kcks val cks => .mapOf (if em then [] else kcks) (if eo then erasePart val else val) cks
 
-/-- the document the converter emitted before the fix. -/
-def toDocLegacy (x : X) : JS := toDocX (eraseX x)
+/-- the document the converter emitted before the fixes named by the flags. -/
+def toDocL (eo em : Bool) (x : X) : JS := toDocX (eraseX eo em x)
+
+/-- … before both. -/
+def toDocLegacy (x : X) : JS := toDocL true true x
 
 mutual
 /-- no `Partial()` anywhere in the schema. -/
@@ -229,10 +248,11 @@ end
 
 /-- the schemas on which the old converter and the fixed one emit the same document: no Partial() below, and at an
     object with a call history the calls leave every field as its own schema says. -/
-def legacyOK : X → Bool
-  | .base s => noPart s
-  | .lazy _ _ x => legacyOK x
+def legacyOK (eo em : Bool) : X → Bool
+  | .base s => !eo || noPart s
+  | .lazy _ _ x => legacyOK eo em x
   | .objF _ ca ops _ sh =>
-      noPartO ca && noPartSh sh && decide (reqKeysG ((objSt sh.keys ops).fieldOpt) sh = requiredKeys sh)
+      !eo || (noPartO ca && noPartSh sh && decide (reqKeysG ((objSt sh.keys ops).fieldOpt) sh = requiredKeys sh))
+  | .mapOf kcks val _ => (!em || kcks.isEmpty) && (!eo || noPart val)
 
 end Gozod.Jsc
